@@ -215,7 +215,8 @@ Definition oG0 := Some (AReg None None []).
    listed order), steps.  The order matters: a lookup on an MDQ entity that is not cached fetches it. *)
 Definition case := (Z * list (Z * Z * Z) * list string * list nat * list cstep)%type.
 Definition c_t0 (c : case) : Z := fst (fst (fst (fst c))).
-(* the daylight-saving gaps of the zone the implementation ran in (Model.f_gaps; [] for most cases) *)
+(* the daylight-saving gaps of the zone the implementation ran in ([] for most cases).  The model of the code now
+   does not take them; they serve to recognise a regression of 7137d601 (class 8) *)
 Definition c_gaps (c : case) : list (Z * Z * Z) := snd (fst (fst (fst c))).
 Definition c_uni (c : case) : list string := snd (fst (fst c)).
 Definition c_order (c : case) : list nat := snd (fst c).
@@ -243,7 +244,9 @@ Fixpoint unfold_obs (prev : list answer) (steps : list cstep) : list answer :=
 
 Definition observed (c : case) : list answer := unfold_obs [] (snd c).
 Definition history (c : case) : list op := expand (c_uni c) (c_order c) (snd c).
-Definition model_out (c : case) : list answer := run (in_zone (c_gaps c)) (init (c_t0 c)) (history c).
+Definition model_out (c : case) : list answer := run cur (init (c_t0 c)) (history c).
+(* what the code before 7137d601 answers in the case's zone *)
+Definition model_out_zone_v0 (c : case) : list answer := run (zone_v0 (c_gaps c)) (init (c_t0 c)) (history c).
 
 Definition agrees (c : case) : bool := answers_eqb (model_out c) (observed c).
 (* the property, evaluated on what the IMPLEMENTATION answered *)
@@ -257,16 +260,15 @@ Definition holds (c : case) : bool := Nat.eqb (verdict c) 0.
      5 a malformed / badly signed MDQ answer escapes as an exception: later sources are not consulted
      6 an inline source given as list-style item (text, cert) is never verified
      7 an EntitiesDescriptor MDQ answer that is expired / lacks a required attribute escapes as TooOld / MustValueError
-   All seven are repaired in /repo (status "fixed"): they are still recognised, so that a regression is
-   reported with its class.
-     8 (open) the process zone has a daylight-saving gap, the implementation did exactly what the faithful model
-       does WITH that gap, and that fails the zone-free reference: since the model without gaps satisfies the spec
-       on every history (c11_store_conforms), the failure is the gap's (an MDQ entry served past its freshness
-       period because add_duration went through the local calendar).  Anything else in such a case (the
-       implementation departs from the model) keeps its own class. *)
+     8 (repaired by 7137d601) the process zone has a daylight-saving gap and the implementation answered exactly what the
+       model of the code BEFORE the commit answers with that gap (an MDQ entry served past its freshness period
+       because add_duration went through the local calendar), which fails the zone-free reference.
+   All eight are repaired in /repo (status "fixed"): they are still recognised, so that a regression is
+   reported with its class and the failing input. *)
 Definition cls (c : case) : nat :=
   match c_gaps c with
-  | _ :: _ => if agrees c then 8 else let v := verdict c in if Nat.leb v 7 then v else 0
+  | _ :: _ => if answers_eqb (model_out_zone_v0 c) (observed c) then 8
+              else let v := verdict c in if Nat.leb v 7 then v else 0
   | [] => let v := verdict c in if Nat.leb v 7 then v else 0
   end.
 Definition run := run_cases agrees holds cls.
